@@ -23,9 +23,16 @@ def run_case(args):
         import gzip
         with gzip.open(path + ".gz", "wt") as f:
             f.write(text)
-        for form in ("path", "string", "gz"):
+        # the same lines with CRLF line ends (a file written on another platform), plain and gzipped
+        with open(path + ".crlf", "wb") as f:
+            f.write(text.replace("\n", "\r\n").encode())
+        with gzip.open(path + ".crlf.gz", "wb") as f:
+            f.write(text.replace("\n", "\r\n").encode())
+        for form in ("path", "string", "gz", "path_crlf", "gz_crlf"):
             with S.quiet():
                 it = (gffutils.DataIterator(path, checklines=c["cl"]) if form == "path" else gffutils.DataIterator(path + ".gz", checklines=c["cl"]) if form == "gz"
+                      else gffutils.DataIterator(path + ".crlf", checklines=c["cl"]) if form == "path_crlf"
+                      else gffutils.DataIterator(path + ".crlf.gz", checklines=c["cl"]) if form == "gz_crlf"
                       else gffutils.DataIterator(text, checklines=c["cl"], from_string=True))
                 got = [S.fid(f) for f in it]
             if got != want_feats:
@@ -59,7 +66,7 @@ def run_case(args):
     except Exception as e:  # noqa
         fails.append(("raised:" + type(e).__name__, str(e)[:200]))
     finally:
-        for p in (path, dbfn, path + ".gz"):
+        for p in (path, dbfn, path + ".gz", path + ".crlf", path + ".crlf.gz"):
             if os.path.exists(p):
                 os.unlink(p)
     return fails
@@ -108,6 +115,11 @@ def run(ctx):
         dirs = [enc({"D1": "d1", "D2": "gff-v 3", "D3": "#note"}[k]) for k in kinds[:cut] if k in ("D1", "D2", "D3")]
         feats = [i + 1 for i, k in enumerate(kinds[:cut]) if k == "F"]
         extra.append({"kinds": kinds, "cl": ctx.rng.choice([0, 1, 10, 11, 50]), "dirs": dirs, "feats": feats, "peekdirs": []})
+    # scale: thousands of directives (and of features) in one file
+    for n in ([900, 2100] if thorough else [700]):
+        kinds = ["D1", "F", "D2", "D3", "C"] * n
+        extra.append({"kinds": kinds, "cl": 10, "dirs": [enc({"D1": "d1", "D2": "gff-v 3", "D3": "#note"}[k]) for k in kinds if k in ("D1", "D2", "D3")],
+                      "feats": [i + 1 for i, k in enumerate(kinds) if k == "F"], "peekdirs": []})
     res = core.pmap(run_case, [(c, ctx.scratch, 100000 + k) for k, c in enumerate(extra)])
     for c, fails in zip(extra, res):
         for clause, got in fails[:1]:
@@ -121,7 +133,7 @@ def run(ctx):
 def replay(ctx, rec):
     c = rec["case"]
     if "kinds" not in c:
-        return True
+        raise core.CannotReplay("no executable case in this replay file")
     kinds = c["kinds"]
     cut = min([i for i, k in enumerate(kinds) if k in ("FASTA", "H")] + [len(kinds)])
     case = {"kinds": kinds, "cl": c["cl"], "dirs": [enc({"D1": "d1", "D2": "gff-v 3", "D3": "#note"}[k]) for k in kinds[:cut] if k in ("D1", "D2", "D3")],
